@@ -826,6 +826,48 @@ def class_region(src, rx, what):
     raise Refuse(f"{what}: unbalanced")
 
 
+def translate_calls(src, sig_rx, what):
+    """a body that only calls the translated members on `*this`, the argument and one temporary:
+    `Variant tmp = other;` (copy constructor) / `x = y;` (operator=) with x, y in {*this, other, tmp}; the temporary is destroyed at the end"""
+    param, init, body = find_function(src, sig_rx, what)
+    if init or param is None:
+        raise Refuse(f"{what}: unexpected shape")
+    calls, tmp, i = [], None, 0
+    stmts, cur = [], []
+    for t in body:
+        if t == ";":
+            stmts.append(cur)
+            cur = []
+        else:
+            cur.append(t)
+    if cur:
+        raise Refuse(f"{what}: missing ;")
+
+    def obj(t):
+        if t == ["*", "this"]:
+            return ".this"
+        if t == [param]:
+            return ".arg"
+        if tmp is not None and t == [tmp]:
+            return ".tmp"
+        raise Refuse(f"{what}: object not understood: {' '.join(t)}")
+    for st in stmts:
+        if len(st) >= 4 and st[0] == "Variant" and st[2] == "=" and tmp is None:
+            tmp = st[1]
+            src_o = ".this" if st[3:] == ["*", "this"] else ".arg" if st[3:] == [param] else None
+            if src_o is None:
+                raise Refuse(f"{what}: {' '.join(st)}")
+            calls.append(f".copyCtor .tmp {src_o}")
+        elif "=" in st:
+            k = st.index("=")
+            calls.append(f".assign {obj(st[:k])} {obj(st[k + 1:])}")
+        else:
+            raise Refuse(f"{what}: statement not understood: {' '.join(st)}")
+    if tmp is not None:
+        calls.append(".dtor .tmp")
+    return "[" + ", ".join(calls) + "]"
+
+
 def generate(repo):
     repo = Path(repo)
     defs = []
@@ -862,6 +904,7 @@ def generate(repo):
                 defs.append((f"Variant_assign{nm}", translate(v, V, r"Variant\s*&\s*operator\s*=\s*\(\s*const\s+" + ty + r"\s*&\s*(?P<p>" + ID + r")\s*\)",
                                                               f"Variant::operator=(const {nm}&)", clear_body=clear, tparam=True)))
                 defs.append((f"Variant_{acc}", translate(v, V, r"(?<!const\s)" + ty + r"\s*&\s*" + acc + r"\s*\(\s*\)(?!\s*const)", f"Variant::{acc}()", clear_body=clear)))
+            defs.append(("Variant_swap : List Call", translate_calls(v, r"void\s+swap\s*\(\s*Variant\s*&\s*(?P<p>" + ID + r")\s*\)", "Variant::swap")))
             defs.append(("Variant_toString", translate(v, V, r"(?<!const\s)String\s*&\s*toString\s*\(\s*\)(?!\s*const)", "Variant::toString()", clear_body=clear)))
         else:
             defs.append(("XmlVariant_toElement", translate(v, V, r"(?<!const\s)Element\s*&\s*toElement\s*\(\s*\)(?!\s*const)", "Xml::Variant::toElement()", clear_body=clear)))
@@ -889,7 +932,7 @@ import Nstd.Rc.Ir
 
 namespace Nstd.Generated.RcBodies
 open Nstd.Rc.Ir
-open Nstd.Rc.Ir.Stmt Nstd.Rc.Ir.PE Nstd.Rc.Ir.CE
+open Nstd.Rc.Ir.Stmt Nstd.Rc.Ir.PE Nstd.Rc.Ir.CE Nstd.Rc.Ir.Call Nstd.Rc.Ir.Obj
 
 """
 
@@ -897,7 +940,7 @@ open Nstd.Rc.Ir.Stmt Nstd.Rc.Ir.PE Nstd.Rc.Ir.CE
 def render(defs):
     out = [HEADER]
     for name, body in defs:
-        out.append(f"def {name} : Stmt :=\n  {body}\n\n")
+        out.append(f"def {name} :=\n  {body}\n\n" if " : " in name else f"def {name} : Stmt :=\n  {body}\n\n")
     out.append("end Nstd.Generated.RcBodies\n")
     return "".join(out)
 
@@ -914,7 +957,7 @@ def run(repo):
     OUT.parent.mkdir(parents=True, exist_ok=True)
     if not OUT.exists() or OUT.read_text() != text:
         OUT.write_text(text)
-    return True, f"{len(defs)} bodies translated (String 8, Variant 13, Xml::Variant 7, RefCount::Ptr 9)"
+    return True, f"{len(defs)} bodies translated (String 8, Variant 14, Xml::Variant 7, RefCount::Ptr 9)"
 
 
 if __name__ == "__main__":
